@@ -10,13 +10,17 @@ use proptest::prelude::*;
 use serde::{Deserialize, Serialize};
 use serde_json::json;
 
-pub const RULE: &str = "enumerated: every whole-second offset in [-1200s,+1200s] (2401 values) and the nanosecond neighbours of both bounds, plus offsets of decades to millennia and the neighbourhoods of 2^31 s, 2^32 s and 2^63 ns, at a list of server instants (mid-day, 00:00:00, 23:59:59.999999999, month/year/leap-day boundaries, years 1 and 9999 edges), on both carriers; generated: random (server instant, offset in ns) pairs biased to the bounds x renderings (basic/extended, Z, +-hh:mm / +-hhmm zones, 0-12 fraction digits). Every request is reference-signed, so inside the window nothing but the timestamp could cause refusal. Oracle (i128 ns arithmetic): Ok iff -900s <= t-now <= +900s; outside: SignatureDoesNotMatch/403 with zero provider calls; all renderings of one instant get one verdict. Non-trivial: |offset| within 2s of a bound, or a sub-second component, or a non-Z/extended/fractional rendering, or a boundary server instant; distinct by (request text, server instant).";
+pub const RULE: &str = "enumerated: every whole-second offset in [-1200s,+1200s] (2401 values) and the nanosecond neighbours of both bounds, plus offsets of decades to millennia and the neighbourhoods of 2^31 s, 2^32 s and 2^63 ns, at a list of server instants (mid-day, 00:00:00, 23:59:59.999999999, month/year/leap-day boundaries, years 1 and 9999 edges), on both carriers; generated: random (server instant, offset in ns) pairs biased to the bounds x renderings (basic/extended, Z, +-hh:mm / +-hhmm zones, 0-12 fraction digits). Every request is reference-signed, so inside the window nothing but the timestamp could cause refusal. The random sub-check also scripts the key provider's readiness (pending, or failing with any error kind): outside the window that must not be visible. Oracle (i128 ns arithmetic): Ok iff -900s <= t-now <= +900s; outside: SignatureDoesNotMatch/403 with zero provider calls; all renderings of one instant get one verdict. Non-trivial: |offset| within 2s of a bound, or a sub-second component, or a non-Z/extended/fractional rendering, or a boundary server instant; distinct by (request text, server instant).";
 
 #[derive(Clone, Debug, Serialize, Deserialize)]
 pub struct WindowCase {
     pub plan: Plan,
     /// t - now, nanoseconds
     pub delta: i128,
+    /// the key provider's readiness: Pending this many times, then (if Some) an error of this kind instead of Ready.
+    /// Outside the window none of it may matter: the request is refused before the provider is involved.
+    #[serde(default)]
+    pub provider_ready: (u8, Option<u8>),
 }
 
 const W: i128 = 900_000_000_000;
@@ -46,10 +50,10 @@ pub fn subs() -> Vec<Box<dyn AnySub>> {
             quick: 30_000,
             thorough: 600_000,
             strat: || {
-                (plan(quiet_opts()), delta_any())
-                    .prop_map(|(mut plan, delta)| {
+                (plan(quiet_opts()), delta_any(), prop_oneof![3 => Just((0u8, None)), 1 => (0u8..4, prop_oneof![1 => Just(None), 2 => (0u8..14).prop_map(Some)])])
+                    .prop_map(|(mut plan, delta, provider_ready)| {
                         plan.cfg.now = plan.instant.add_nanos(-delta);
-                        WindowCase { plan, delta }
+                        WindowCase { plan, delta, provider_ready }
                     })
                     .prop_filter("server time in years 1..9999", |w| {
                         let y = w.plan.cfg.now.year();
@@ -70,7 +74,7 @@ pub fn subs() -> Vec<Box<dyn AnySub>> {
                         let inst = Instant { secs: plan.instant.secs, nanos: 0 };
                         let mut p1 = plan.clone().with_time(inst, s1);
                         p1.cfg.now = inst.add_nanos(-delta);
-                        Pair { a: WindowCase { plan: p1, delta }, style_b: s2 }
+                        Pair { a: WindowCase { plan: p1, delta, provider_ready: (0, None) }, style_b: s2 }
                     })
                     .prop_filter("server time in years 1..9999", |w| (1..=9999).contains(&w.a.plan.cfg.now.year()))
                     .boxed()
@@ -129,7 +133,7 @@ fn sweep_list(tier: Tier) -> Vec<WindowCase> {
                 let style = if t.nanos != 0 { styles[1] } else { styles[(si + (delta / 1_000_000_000) as usize % 2) % 2] };
                 let mut plan = simple_plan(carrier).with_time(t, style);
                 plan.cfg.now = now;
-                out.push(WindowCase { plan, delta });
+                out.push(WindowCase { plan, delta, provider_ready: (0, None) });
             }
         }
     }
@@ -137,10 +141,15 @@ fn sweep_list(tier: Tier) -> Vec<WindowCase> {
 }
 
 fn run_one(w: &WindowCase, cc: &mut CaseCtx) -> Result<Option<bool>, Failure> {
-    let Ok(built) = w.plan.build() else {
+    let Ok(mut built) = w.plan.build() else {
         cc.class("unsignable");
         return Ok(None);
     };
+    built.case.prov.ready_pending = w.provider_ready.0;
+    built.case.prov.ready_err = w.provider_ready.1.map(|k| match k {
+        13 => crate::types::Answer::Foreign(format!("key service unavailable ({})", w.provider_ready.0)),
+        k => crate::types::Answer::SigErr(crate::types::Kind::ALL[k as usize % 12], format!("key service says no ({})", k)),
+    });
     let a = analyze(&built.case);
     let o = exec::run(&built.case);
     if let exec::Res::Unrepresentable(_) = o.res {
@@ -157,6 +166,7 @@ fn run_one(w: &WindowCase, cc: &mut CaseCtx) -> Result<Option<bool>, Failure> {
     }
     match a.verdict() {
         Verdict::Accept if inside => {}
+        Verdict::Reject { rank, .. } if inside && *rank == R_PROVIDER && w.provider_ready.1.is_some() => {}
         Verdict::Reject { rank, .. } if !inside && (*rank == R_EXPIRED || *rank == R_FUTURE) => {}
         other => return Err(harness_bug(format!("window model inconsistent: delta {} verdict {}", real, other.short()))),
     }
@@ -166,6 +176,11 @@ fn run_one(w: &WindowCase, cc: &mut CaseCtx) -> Result<Option<bool>, Failure> {
     cc.class_if(real == W || real == -W, "exactly-on-bound");
     cc.class_if(w.plan.instant.nanos != 0 || w.plan.cfg.now.nanos != 0, "sub-second");
     cc.class_if(w.plan.style.offset_min.is_some(), "zone-offset");
+    cc.class_if(!inside && w.provider_ready != (0, None), "outside-with-a-provider-that-is-not-ready");
+    // outside the window the provider is not involved at all, not even its readiness
+    if !inside && !o.prov_log.is_empty() {
+        return Err(Failure::new("provider-touched-outside-the-window", format!("{} ns from the server clock, yet the provider saw {:?}", real, o.prov_log)));
+    }
     cc.class_if(w.plan.instant.date8() != w.plan.cfg.now.date8(), "crosses-midnight");
     if near || w.plan.instant.nanos != 0 || w.plan.cfg.now.nanos != 0 || w.plan.style != TsStyle::BASIC_Z || w.plan.instant.date8() != w.plan.cfg.now.date8() {
         cc.nontrivial(digest_of(&[w.plan.spec.ts_text.as_bytes(), &w.plan.cfg.now.total_nanos().to_le_bytes(), &[w.plan.spec.carrier as u8]]));
